@@ -187,6 +187,11 @@ impl<'w> Ctx<'w> {
                         self.unify(&v.ty, &at)?;
                     }
                     ty = at;
+                } else if v.ty == Ty::Named("TryIntoUnwrapped".into()) {
+                    // `let n = x.try_into().unwrap();` — the width comes from how `n` is used
+                    let iv = self.new_ivar();
+                    val = format!("(← tryInto {} {})", self.wtxt(&iv)?, v.s);
+                    ty = iv;
                 }
                 self.flush_pre(n, out);
                 let lt = self.w.lean_ty(&self.resolve(&ty))?;
@@ -399,6 +404,10 @@ impl<'w> Ctx<'w> {
                     // `self` returned by builder methods is the &mut receiver itself: nothing to add
                     let is_self = matches!(strip_ref(other), Expr::Path(p) if p.path.is_ident("self"));
                     if is_self && self.muts.iter().any(|m| m == "self_") {
+                        out.push(format!("{}return {}", ind(n), self.ret_pack(None)));
+                    } else if self.ret_ty == Ty::Unit && v.eff && v.s != "()" {
+                        // a unit function ending in a fallible call: its failure is the function's
+                        out.push(format!("{}let _ := {}", ind(n), v.s));
                         out.push(format!("{}return {}", ind(n), self.ret_pack(None)));
                     } else {
                         out.push(format!("{}return {}", ind(n), self.ret_pack(Some(&v.s))));
@@ -826,7 +835,7 @@ impl World {
         for gp in impl_generics.params.iter().chain(sig.generics.params.iter()) {
             if let GenericParam::Type(tp) = gp {
                 if let Some(inst) = opts.get(&tp.ident.to_string()) {
-                    generics.insert(tp.ident.to_string(), Ty::Named(inst.clone()));
+                    generics.insert(tp.ident.to_string(), crate::tr::inst_ty(inst));
                 }
             }
         }
@@ -840,7 +849,7 @@ impl World {
         let mut ctx = Ctx {
             w: self, vars: vec![BTreeMap::new()], widths: Rc::new(RefCell::new(vec![])), ivar_parent: Rc::new(RefCell::new(vec![])),
             pre: vec![], ret_ty: Ty::Unit, muts: vec![], generics: generics.clone(), fuel: opts.get("fuel").cloned(),
-            self_ty: ty_name.map(|s| s.to_string()), fresh: 0, val_mode: vec![], mut_pat_binds: vec![], loop_fin: vec![], used_step: false,
+            self_ty: ty_name.map(|s| s.to_string()), fresh: 0, val_mode: vec![], mut_pat_binds: vec![], loop_fin: vec![], used_step: false, local_muts: vec![], used_decompress: false, used_wwrite: false, used_wflush: false, used_compress: false, pending_drops: vec![],
         };
         let mut params: Vec<String> = vec![];
         let mut rebinds: Vec<String> = vec![];
@@ -859,8 +868,10 @@ impl World {
                     sig_params.push((Ty::Named(tn.to_string()), by_mut));
                     if by_mut {
                         ctx.muts.push("self_".into());
+                        ctx.local_muts.push("self".into());
                         rebinds.push("let mut self_ := self_".into());
                     } else if r.mutability.is_some() {
+                        ctx.local_muts.push("self".into());
                         rebinds.push("let mut self_ := self_".into());
                     }
                 }
@@ -879,6 +890,7 @@ impl World {
                         ctx.muts.push(ln.clone());
                     }
                     if by_mut || is_mut_binding {
+                        ctx.local_muts.push(n.clone());
                         rebinds.push(format!("let mut {} := {}", ln, ln));
                     }
                 }
@@ -894,6 +906,16 @@ impl World {
         };
         let ret_inner = match &ret { Ty::Res(t) => (**t).clone(), o => o.clone() };
         ctx.ret_ty = ret_inner.clone();
+        // a `drop_ret` function returning a checked wrapper: callers see the exposed field and owe the drop call
+        let view: Option<String> = if drop_ret {
+            match &sig.output {
+                ReturnType::Type(_, t) => match &**t {
+                    Type::Path(p) => p.path.segments.last().map(|s| s.ident.to_string()),
+                    _ => None,
+                },
+                _ => None,
+            }
+        } else { None };
         // returned type
         let mut parts: Vec<String> = vec![];
         if ret_inner != Ty::Unit {
@@ -914,6 +936,19 @@ impl World {
             if lines.len() == 1 && lines[0].trim() == "pure ()" { lines.clear(); }
             lines.push(format!("  return {}", ctx.ret_pack(None)));
         }
+        if !ctx.pending_drops.is_empty() {
+            // wrappers alive until the end of the body: their `Drop` runs just before the (single, final) return
+            let nret = lines.iter().filter(|l| l.trim_start().starts_with("return ")).count();
+            if nret != 1 || !lines.last().map_or(false, |l| l.trim_start().starts_with("return ")) {
+                return Err("a dropped wrapper in a function with early returns".into());
+            }
+            let last = lines.pop().unwrap();
+            let drops: Vec<(String, String)> = ctx.pending_drops.iter().rev().cloned().collect();
+            for (place, callee) in drops {
+                lines.push(format!("  {} ← Grenad.Gen.{} {}", place, callee, place));
+            }
+            lines.push(last);
+        }
         // patch integer widths
         let mut text = String::new();
         text.push_str(&format!("def {} {} : M {} := do\n", lean_name, params.join(" "), paren(&lean_ret)));
@@ -924,9 +959,27 @@ impl World {
             text.push_str(l);
             text.push('\n');
         }
+        let used_decompress = ctx.used_decompress;
+        let used_compress = ctx.used_compress;
+        if used_compress {
+            text = text.replacen(&format!("def {} ", lean_name), &format!("def {} (compress : CompressionType → Nat → List UInt8 → Option (List UInt8)) ", lean_name), 1);
+        }
+        if used_decompress {
+            text = text.replacen(&format!("def {} ", lean_name), &format!("def {} (decompress : CompressionType → List UInt8 → Option (List UInt8)) ", lean_name), 1);
+        }
         let used_step = ctx.used_step;
         if used_step {
-            text = text.replacen(&format!("def {} ", lean_name), &format!("def {} {{γ : Type}} (step : γ → CurOp → γ × CurRes) ", lean_name), 1);
+            text = text.replacen(&format!("def {} ", lean_name), &format!("def {} (step : γ → CurOp → γ × CurRes) ", lean_name), 1);
+        }
+        let uses_w = ctx.used_wwrite || ctx.used_wflush;
+        if ctx.used_wflush {
+            text = text.replacen(&format!("def {} ", lean_name), &format!("def {} (wflush : γ → γ × Except IoErr Unit) ", lean_name), 1);
+        }
+        if ctx.used_wwrite {
+            text = text.replacen(&format!("def {} ", lean_name), &format!("def {} (wwrite : γ → List UInt8 → γ × Except IoErr Nat) ", lean_name), 1);
+        }
+        if text.contains('γ') {
+            text = text.replacen(&format!("def {} ", lean_name), &format!("def {} {{γ : Type}} ", lean_name), 1);
         }
         let nvars = ctx.widths.borrow().len();
         for i in 0..nvars {
@@ -941,7 +994,7 @@ impl World {
         drop(ctx);
         self.fns.insert(
             match ty_name { Some(t) => format!("{}.{}", t, name), None => name.to_string() },
-            FnSig { lean: lean_name, params: sig_params, ret: ret_inner, self_mut, has_self, uses_step: used_step, ret_is_res: matches!(ret, Ty::Res(_)) },
+            FnSig { lean: lean_name, params: sig_params, ret: ret_inner, self_mut, has_self, uses_step: used_step, ret_is_res: matches!(ret, Ty::Res(_)), uses_decompress: used_decompress, uses_w, view, uses_compress: used_compress },
         );
         Ok(text)
     }
